@@ -12,6 +12,9 @@ struct LogIter<'a, T: Word> {
     id: u32,
     i: usize,
     len: usize,
+    /// items the iterator would yield beyond the `len` its ExactSizeIterator impl reports (a safe trait may lie):
+    /// the arena must take exactly `len` of them
+    extra: usize,
     log: &'a Cell<usize>,
     ordered: &'a Cell<bool>,
     _t: std::marker::PhantomData<T>,
@@ -20,7 +23,7 @@ impl<'a, T: Word> Iterator for LogIter<'a, T> {
     type Item = T;
     fn next(&mut self) -> Option<T> {
         let _u = enter_user();
-        if self.i >= self.len {
+        if self.i >= self.len + self.extra {
             return None;
         }
         if self.log.get() != self.i {
@@ -32,7 +35,7 @@ impl<'a, T: Word> Iterator for LogIter<'a, T> {
         Some(v)
     }
     fn size_hint(&self) -> (usize, Option<usize>) {
-        (self.len - self.i, Some(self.len - self.i))
+        (self.len.saturating_sub(self.i), Some(self.len.saturating_sub(self.i)))
     }
 }
 impl<'a, T: Word> ExactSizeIterator for LogIter<'a, T> {}
@@ -362,6 +365,8 @@ impl<const M: usize> Sim<M> {
             (_, true) => "try_alloc_slice_fill_iter",
         };
         let src: Vec<T> = if flavour == 0 { (0..len).map(|i| T::from_pat(id, i)).collect() } else { Vec::new() };
+        // one fill_iter in four is driven by an iterator that has more items than its len() admits
+        let extra = if flavour == 3 && op.a & 0x30 == 0x30 { 1 + (op.b % 7) as usize } else { 0 };
         let fillv = T::from_pat(id, 7);
         let next = Cell::new(0usize);
         let ordered = Cell::new(true);
@@ -381,8 +386,8 @@ impl<const M: usize> Sim<M> {
                 (1, true) => b.try_alloc_slice_fill_with(len, f).ok(),
                 (2, false) => Some(b.alloc_slice_fill_copy(len, fillv)),
                 (2, true) => b.try_alloc_slice_fill_copy(len, fillv).ok(),
-                (_, false) => Some(b.alloc_slice_fill_iter(LogIter::<T> { id, i: 0, len, log: &next, ordered: &ordered, _t: Default::default() })),
-                (_, true) => b.try_alloc_slice_fill_iter(LogIter::<T> { id, i: 0, len, log: &next, ordered: &ordered, _t: Default::default() }).ok(),
+                (_, false) => Some(b.alloc_slice_fill_iter(LogIter::<T> { id, i: 0, len, extra, log: &next, ordered: &ordered, _t: Default::default() })),
+                (_, true) => b.try_alloc_slice_fill_iter(LogIter::<T> { id, i: 0, len, extra, log: &next, ordered: &ordered, _t: Default::default() }).ok(),
             };
             r.map(|s| (s.as_mut_ptr() as usize, s.len()))
         });
@@ -517,7 +522,7 @@ impl<const M: usize> Sim<M> {
                 Some((self.mk)())
             }
             fn size_hint(&self) -> (usize, Option<usize>) {
-                (self.len - self.i, Some(self.len - self.i))
+                (self.len.saturating_sub(self.i), Some(self.len.saturating_sub(self.i)))
             }
         }
         impl<'a, Z> ExactSizeIterator for ZIt<'a, Z> {}
@@ -630,7 +635,7 @@ impl<const M: usize> Sim<M> {
                         Some((self.f)(self.i - 1))
                     }
                     fn size_hint(&self) -> (usize, Option<usize>) {
-                        (self.len - self.i, Some(self.len - self.i))
+                        (self.len.saturating_sub(self.i), Some(self.len.saturating_sub(self.i)))
                     }
                 }
                 impl<'f, T, E> ExactSizeIterator for It<'f, T, E> {}
@@ -779,8 +784,12 @@ impl<const M: usize> Sim<M> {
     }
 }
 
+const NB_SIZE: usize = 24;
+
 /// what a collection hand-off leaves in the arena: (address, element count)
-fn handoff<T: Copy + 'static>(b: &Bump<1>, elems: &[T], cap: usize, variant: u8, fallible: bool) -> Option<(usize, usize)> {
+/// `probe`: between reserving and filling, ask for far more room (which fails when a limit or fault plan is in the
+/// way and must then change nothing) and make a small neighbour allocation; its address is reported through `nb`.
+fn handoff<T: Copy + 'static>(b: &Bump<1>, elems: &[T], cap: usize, variant: u8, fallible: bool, probe: bool, nb: &Cell<usize>) -> Option<(usize, usize)> {
     use bumpalo::boxed::Box as BBox;
     use bumpalo::collections::Vec as BVec;
     let mut v: BVec<T> = if fallible {
@@ -792,6 +801,13 @@ fn handoff<T: Copy + 'static>(b: &Bump<1>, elems: &[T], cap: usize, variant: u8,
     } else {
         BVec::with_capacity_in(cap, b)
     };
+    if probe {
+        let _ = if variant & 1 == 0 { v.try_reserve_exact(48 << 10) } else { v.try_reserve(48 << 10) };
+        if let Ok(p) = b.try_alloc_layout(Layout::from_size_align(NB_SIZE, 1).unwrap()) {
+            unsafe { std::ptr::write_bytes(p.as_ptr(), 0x5a, NB_SIZE) };
+            nb.set(p.as_ptr() as usize);
+        }
+    }
     v.extend_from_slice_copy(elems);
     Some(match variant {
         1 => {
@@ -875,7 +891,8 @@ impl<const M: usize> Sim<M> {
         let e32: Vec<u32> = if esz == 4 { bytes.chunks(4).map(|c| u32::from_ne_bytes([c[0], c[1], c[2], c[3]])).collect() } else { vec![] };
         let e64: Vec<u64> = if esz == 8 { bytes.chunks(8).map(|c| u64::from_ne_bytes([c[0], c[1], c[2], c[3], c[4], c[5], c[6], c[7]])).collect() } else { vec![] };
         self.note_align_stats(cap * esz, esz);
-        let pre = self.pre(if cap > 0 { Some(l) } else { None }, fallible);
+        let probe = can_fail && fallible && op.b & 0x20 != 0;
+        let pre = self.pre(if cap > 0 && !probe { Some(l) } else { None }, fallible);
         let what: &'static str = match (variant, fallible) {
             (1, false) => "Vec::with_capacity_in + into_bump_slice_mut",
             (1, true) => "Vec::try_reserve_exact + into_bump_slice_mut",
@@ -892,19 +909,34 @@ impl<const M: usize> Sim<M> {
             (_, false) => "Vec::with_capacity_in + into_bump_slice",
             (_, true) => "Vec::try_reserve_exact + into_bump_slice",
         };
+        // under a limit or fault plan: a (probably failing) further reservation and a neighbour allocation in between
+        let nb = Cell::new(0usize);
         let res = self.call(|b| {
             let b1: &Bump<1> = (b as &dyn std::any::Any).downcast_ref::<Bump<1>>().expect("M == 1");
             match (variant, esz) {
                 (4, _) | (5, _) => handoff_str(b1, &text, cap, variant, fallible),
-                (_, 2) => handoff(b1, &e16, cap, variant, fallible),
-                (_, 4) => handoff(b1, &e32, cap, variant, fallible),
-                (_, 8) => handoff(b1, &e64, cap, variant, fallible),
-                _ => handoff(b1, &bytes, cap, variant, fallible),
+                (_, 2) => handoff(b1, &e16, cap, variant, fallible, probe, &nb),
+                (_, 4) => handoff(b1, &e32, cap, variant, fallible, probe, &nb),
+                (_, 8) => handoff(b1, &e64, cap, variant, fallible, probe, &nb),
+                _ => handoff(b1, &bytes, cap, variant, fallible, probe, &nb),
             }
         });
         let (outcome, r) = self.post_call(OpKind::Alloc, what, res, pre);
         let mut ptr = 0;
         let mut got_len = 0;
+        if nb.get() != 0 {
+            // the neighbour allocated between the reservation and the fill is a live block of its own
+            let p2 = nb.get();
+            let id2 = self.fresh_id();
+            if self.check_new_block("allocation made while a reserved vector was still empty", p2, NB_SIZE, 1, None) {
+                let got = unsafe { std::slice::from_raw_parts(p2 as *const u8, NB_SIZE) };
+                if got.iter().any(|x| *x != 0x5a) {
+                    self.v("C02", format!("{what}: filling the vector within its reserved capacity changed a neighbouring live block"));
+                }
+                unsafe { write_pat(id2, p2 as *mut u8, NB_SIZE) };
+                self.add_block(id2, p2, NB_SIZE, 1, false);
+            }
+        }
         if let Some((p, n)) = r {
             ptr = p;
             let want_n = if variant == 6 { len / 2 } else { len };
